@@ -1,12 +1,18 @@
-import GoSQLXModel.Proofs.ExprRoundTrip
+import GoSQLXModel.Model.ExprGrammar
 /-!
-# The AST serialiser's parenthesisation rule (pkg/sql/ast/sql.go: BinaryExpression.SQL, UnaryExpression.SQL, operandSQL)
+# The AST serialiser's rules on the expression ladder (pkg/sql/ast/sql.go)
 
 `operandSQL(e, parentPrec, right)` wraps the operand in parentheses iff
 `p < parentPrec || (p == parentPrec && (right || parentPrec == 4))`, where `p` is the operand's own strength
-(`sqlOperatorPrecedence` of its operator, 3 for NOT, 9 for everything without an operator).  `printG` writes a model
-expression by that rule; `print_eq_render` shows that this is exactly the reference rendering `render 1`, hence
-(`parse_render`) every expression written by the serialiser is read back as itself.
+(`sqlOperatorPrecedence` of its operator, 3 for NOT, 4 for the predicates, 9 for everything without an operator).
+`BinaryExpression.SQL` writes both operands by that rule with the operator's strength; `IS NULL` its left operand;
+`LIKE`/`ILIKE` the pattern with strength 9 (a primary expression); `BetweenExpression.SQL` all three operands with
+(4, right); `InExpression.SQL` the tested expression with (4, right) and the values bare; `FunctionCall.SQL` the
+arguments bare.  Keywords are written in the serialiser's fixed spelling.
+
+`printG` writes a model expression by these rules; `print_eq_render` (Proofs/PrintRoundTrip.lean) shows that this is
+exactly the reference rendering `render 1` of the tree with keywords in the fixed spelling, hence (`parse_render`) every
+expression written by the serialiser is read back as itself.
 -/
 namespace GoSQLXModel.ExprParse
 
@@ -17,18 +23,48 @@ def needsParen (p parentPrec : Nat) (right : Bool) : Bool :=
 /-- the strength operandSQL assigns to an operand -/
 def childPrec : G → Nat
   | .atom _ => 9
+  | .call _ _ => 9
   | .bin op _ _ _ => op.prec
   | .not _ _ => 3
+  | .isnull _ _ _ _ => 4
+  | .between _ _ _ _ _ _ => 4
+  | .like _ _ _ _ => 4
+  | .inlist _ _ _ _ _ => 4
 
 def wrap (b : Bool) (ts : List PTok) : List PTok := if b then lp :: (ts ++ [rp]) else ts
 
-/-- BinaryExpression.SQL / UnaryExpression.SQL on the model grammar -/
+/-- the NOT the serialiser writes for a negated predicate -/
+def negKw : Option String → List PTok
+  | none => []
+  | some _ => [⟨.not, "NOT"⟩]
+
+mutual
 def printG : G → List PTok
   | .atom a => [a.tok]
+  | .call n args => ⟨.ident, n⟩ :: lp :: (printArgs args ++ [rp])
   | .bin op lit l r =>
     wrap (needsParen (childPrec l) op.prec false) (printG l) ++
       ⟨op.tk, lit⟩ :: wrap (needsParen (childPrec r) op.prec true) (printG r)
   | .not lit e => ⟨.not, lit⟩ :: wrap (needsParen (childPrec e) 3 false) (printG e)
+  | .isnull _ neg _ e =>
+    wrap (needsParen (childPrec e) 4 false) (printG e) ++ ⟨.is, "IS"⟩ :: (negKw neg ++ [⟨.null, "NULL"⟩])
+  | .between neg _ _ e lo hi =>
+    wrap (needsParen (childPrec e) 4 true) (printG e) ++
+      (negKw neg ++ ⟨.between, "BETWEEN"⟩ :: (wrap (needsParen (childPrec lo) 4 true) (printG lo) ++
+        ⟨.and, "AND"⟩ :: wrap (needsParen (childPrec hi) 4 true) (printG hi)))
+  | .like neg op e pat =>
+    wrap (needsParen (childPrec e) 4 false) (printG e) ++
+      (negKw neg ++ (if neg.isSome then ⟨op.k, upper op.lit⟩ else op) :: wrap (needsParen (childPrec pat) 9 false) (printG pat))
+  | .inlist neg _ e first rest =>
+    wrap (needsParen (childPrec e) 4 true) (printG e) ++
+      (negKw neg ++ ⟨.in_, "IN"⟩ :: lp :: (printG first ++ (printMore rest ++ [rp])))
+def printMore : GL → List PTok
+  | .nil => []
+  | .cons g rest => comma :: (printG g ++ printMore rest)
+def printArgs : GL → List PTok
+  | .nil => []
+  | .cons g rest => printG g ++ printMore rest
+end
 
 /-- the serialiser's precedence table, by operator class: what `sqlOperatorPrecedence` must answer for the spellings
     of each class (obligation on the regenerated table in Props/C06) -/
